@@ -254,7 +254,7 @@ def run(ctx):
     items = []
     for s in samp:
         b = pt.pauli_to_bsf(s)
-        ps = coq_list(list(s))
+        ps = coq_list(['p' + ch for ch in s])
         items.append('(beqv (to_bsf %s) %s && (pauli_wt %s =? %d) && (bsf_wt %s =? %d))'
                      % (ps, coq_bits(b.tolist()), ps, int(pt.pauli_wt(s)), coq_bits(b.tolist()), int(pt.bsf_wt(b))))
     for (s, t) in pairs[:: max(1, len(pairs) // 150)][:150]:
